@@ -208,6 +208,30 @@ impl<W: Write> Trace<W> {
         }
     }
 
+    /// One perfect-link round in the middle of a run (no quiescence claimed afterwards): everything in
+    /// flight is delivered and acknowledged, so that later steps start from acknowledged state.
+    pub fn sync(&mut self, sim: &mut Sim) {
+        let names: Vec<String> = sim.clients.iter().map(|c| c.name.clone()).collect();
+        self.step(sim, "SrvFrame", json!({"tick": true, "dt": 0}));
+        for c in &names {
+            let ci = sim.ci(c);
+            if sim.clients[ci].entity.is_none() {
+                continue;
+            }
+            while sim.channel_len(c, "s2c", CH_UPD) > 0 {
+                self.step(sim, "DeliverUpd", json!({"c": c}));
+            }
+            while sim.channel_len(c, "s2c", CH_MUT) > 0 {
+                self.step(sim, "DeliverMut", json!({"c": c, "pos": 0}));
+            }
+            self.step(sim, "CliFrame", json!({"c": c, "dt": 0}));
+            while sim.channel_len(c, "c2s", CH_ACK) > 0 {
+                self.step(sim, "DeliverAck", json!({"c": c}));
+            }
+        }
+        self.step(sim, "SrvFrame", json!({"tick": false, "dt": 0}));
+    }
+
     /// Perfect-link rounds: tick, deliver everything, client frames, deliver acks.
     pub fn settle(&mut self, sim: &mut Sim, rounds: usize) {
         let names: Vec<String> = sim.clients.iter().map(|c| c.name.clone()).collect();
@@ -345,6 +369,11 @@ pub fn random_run<W: Write>(tr: &mut Trace<W>, cfg: Cfg, prof: &Profile, seed: u
                 }
                 _ => tr.step(&mut sim, "KillPre", json!({"c": c, "p": p})),
             };
+            continue;
+        }
+        if rng.chance(1, 14) {
+            // acknowledged state in the middle of the run, then the history goes on
+            tr.sync(&mut sim);
             continue;
         }
         let e = rng.pick(&ents).clone();
